@@ -829,10 +829,14 @@ def f19_match_replay():
 # ------------------------------------------------------------------------------------ generator
 
 def seeds(rng, k):
-    out = [bytes(range(64)), bytes(32), b"\xff" * 64][:min(k, 3)]
-    lens = [16, 32, 64, 24, 48, 33, 20, 40, 56, 64]
+    out = [bytes(range(64)), bytes(32)][:min(k, 2)]          # a 64-byte seed; the all-zero 32-byte seed
+    if k > 3:
+        out.append(b"\xff" * 64)
+    lens = [16, 32, 64, 24, 48, 33, 20, 40, 56, 64]          # legal BIP-32 seed lengths 128..512 bits
+    j = 0
     while len(out) < k:
-        n = lens[len(out) % len(lens)]
+        n = lens[j % len(lens)]
+        j += 1
         out.append(bytes(rng.randrange(256) for _ in range(n)))
     return out[:k]
 
